@@ -32,7 +32,8 @@ Section WithOracle.
     (alist_get (u_attrs st) n, str_in n (u_none st)).
 
   (* the one assignment that the immutable-field test of Field.__set__ never sees: None under
-     _enable_undefined_value to a non-required field (the marker is added by __setattr__ itself) *)
+     _enable_undefined_value to a non-required field (the marker is added by __setattr__ itself, which refuses
+     when the field is declared immutable and holds a value: NoneFields.marker_blocked) *)
   Definition none_marker_path (c : classdef) (u : bool) (n : pystr) (v : pyval) : bool :=
     u && is_none_val v && negb (is_required c n) && str_in n (field_names c).
 End WithOracle.
